@@ -31,6 +31,10 @@ BAD_DECLS = [
     "func Bad%(k)d(s []uint64) []uint64 {\n\treturn s[0:1:2]\n}\n",                       # 3-index slice
     "func Bad%(k)d(x uint64) uint64 {\n\tswitch x {\n\tcase 1:\n\t\treturn 2\n\t}\n\treturn 3\n}\n",  # switch
     "func Bad%(k)d(c chan uint64) {\n\tc <- 1\n}\n",                                        # channels
+    # declarations on which the translator fails INTERNALLY (its own panic, not a conversion error): reported as an error of that
+    # declaration like the others; the type declaration in front translates
+    ("type Buf%(k)d []byte\n", "func Bad%(k)d(b Buf%(k)d, x []byte) uint64 {\n\treturn uint64(copy(b, x))\n}\n"),
+    ("type Sl%(k)d []uint64\n", "func Bad%(k)d(s Sl%(k)d) uint64 {\n\tt := s[1:]\n\treturn uint64(len(t))\n}\n"),
 ]
 
 
@@ -39,6 +43,12 @@ def mk_pkg(rnd, name, kind, k0):
     if kind == "broken":
         # does not type-check: goose has no translation for it at all
         src = "package %s\n\nfunc Broken%d() uint64 {\n\treturn \"not a number\"\n}\n" % (name, k0)
+        return {"f0.go": src}, {"f0.go": "package %s\n" % name}, True
+    if kind == "twoffi":
+        # type-correct, but it reaches two FFIs: goose refuses the whole package (an error), and writes nothing for it even with
+        # -ignore-errors (there is no translation, not a partial one)
+        src = ("package %s\n\nimport (\n\t\"github.com/goose-lang/goose/machine/async_disk\"\n\t\"github.com/goose-lang/goose/machine/disk\"\n)\n\n"
+               "func Sizes%d(d disk.Disk, a async_disk.Disk) uint64 {\n\treturn d.Size() + a.Size()\n}\n" % (name, k0))
         return {"f0.go": src}, {"f0.go": "package %s\n" % name}, True
     if kind == "big":
         # an output file well above 64 KiB (no error): the unchanged-content test must look at all of it
@@ -58,7 +68,12 @@ def mk_pkg(rnd, name, kind, k0):
                 bad = True
             if bad:
                 has_err = True
-                parts.append(rnd.choice(BAD_DECLS) % {"k": k})
+                bd = rnd.choice(BAD_DECLS)
+                if isinstance(bd, tuple):
+                    parts.append(bd[0] % {"k": k})
+                    parts_good.append(bd[0] % {"k": k})
+                    bd = bd[1]
+                parts.append(bd % {"k": k})
             else:
                 g = rnd.choice(GOOD_DECLS) % {"k": k}
                 parts.append(g)
@@ -85,6 +100,8 @@ def scenarios(seed, tier):
                 kind = "big" if d == "a" else ("bad" if (s == 1 and d == "x/z") else "good")
             if s in (2, 3, 4, 5):
                 kind = ["mixed", "good", "bad", "good", "good"][i % 5]
+            if s == 5 and i == 1:
+                kind = "twoffi"
             name = d.split("/")[-1].replace("-", "_").replace(".", "_")
             files, red, he = mk_pkg(rnd, name, kind, 100 * i)
             # build-tag guarded files: only the `goose` one belongs to the package goose sees
@@ -219,11 +236,11 @@ def check(ctx):
                 raise C.Infra("generator and go list disagree on matched packages: %s vs %s" % (sorted(listed), sorted(want_pkgs)))
             # ---- the model
             order = sorted(sc["matched"], key=lambda d: "example.com/m/" + d)
-            line = "cmd %d 0 %s" % (1 if sc["ignore"] else 0, " ".join("%s %d %s" % ("example.com/m/" + d, 2 if sc["kinds"][d] == "broken" else 1 if sc["errs"][d] else 0, sc["prior"][d]) for d in order))
+            line = "cmd %d 0 %s" % (1 if sc["ignore"] else 0, " ".join("%s %d %s" % ("example.com/m/" + d, 2 if sc["kinds"][d] in ("broken", "twoffi") else 1 if sc["errs"][d] else 0, sc["prior"][d]) for d in order))
             model = C.driver("cli", [line])[0] if build.driver_ok else None
             # ---- the property, clause by clause
             any_err = any(sc["errs"][d] for d in sc["matched"])
-            unwritable = [d for d in sc["matched"] if sc["prior"][d] == "u" and (not sc["errs"][d] or sc["ignore"]) and sc["kinds"][d] != "broken"]
+            unwritable = [d for d in sc["matched"] if sc["prior"][d] == "u" and (not sc["errs"][d] or sc["ignore"]) and sc["kinds"][d] not in ("broken", "twoffi")]
             crashed = "goroutine " in err and "panic" in err
             if crashed:
                 viol(sc, "crashed", "no stack trace", err[:600])
@@ -234,7 +251,7 @@ def check(ctx):
                          {"exit": rc, "stderr": err[-500:]})
                 for d in sc["matched"]:
                     op = outpath(d)
-                    should_exist_new = (not sc["errs"][d]) or (sc["ignore"] and sc["kinds"][d] != "broken")
+                    should_exist_new = (not sc["errs"][d]) or (sc["ignore"] and sc["kinds"][d] not in ("broken", "twoffi"))
                     pr = sc["prior"][d]
                     if should_exist_new:
                         if op not in after:
@@ -279,7 +296,7 @@ def check(ctx):
             # ---- build tag
             for d in sc["matched"]:
                 op = outpath(d)
-                written_now = (not sc["errs"][d]) or (sc["ignore"] and sc["kinds"][d] != "broken")    # else the file is the planted older one
+                written_now = (not sc["errs"][d]) or (sc["ignore"] and sc["kinds"][d] not in ("broken", "twoffi"))    # else the file is the planted older one
                 if "tag_goose.go" in sc["pkgs"][d] and op in after and not unwritable and written_now:
                     txt = after[op][0].decode()
                     stats["tagged_packages"] += 1
@@ -303,12 +320,15 @@ def check(ctx):
         # ---- two packages whose import paths map to the same Coq path ('-', '.' and '_' all become '_'): one output file cannot hold
         #      both translations; the command must say so (non-zero exit) instead of silently keeping one
         fn2 = "func %s() uint64 {\n\treturn 1\n}\n"
-        col = {"a-b": {"f.go": "package ab\n\n" + fn2 % "Dash"}, "a_b": {"f.go": "package a_b\n\n" + fn2 % "Under"}, "a.b": {"f.go": "package ab\n\n" + fn2 % "Dot"}}
+        # (with packages between the colliding ones in the sorted order: a sub-package of the first, an unrelated one)
+        col = {"a-b": {"f.go": "package ab\n\n" + fn2 % "Dash"}, "a_b": {"f.go": "package a_b\n\n" + fn2 % "Under"}, "a.b": {"f.go": "package ab\n\n" + fn2 % "Dot"},
+               "a-b/sub": {"f.go": "package sub\n\n" + fn2 % "Sub"}, "a-c": {"f.go": "package ac\n\n" + fn2 % "Other"}}
         root = os.path.join(scratch, "col")
         gomod.write_module(root, col)
         rc, out, err = gomod.run_goose(root, [], ["./..."], out=os.path.join(root, "Goose"))
         t = gomod.tree(os.path.join(root, "Goose"))
         stats["colliding_path_scenarios"] += 1
+        ncol = sum(1 for d in col if d in ("a-b", "a_b", "a.b"))
         if rc == 0 and len(t) < len(col) and not found:
             found = True
             ctx.violation("counterexample", "goose command: packages whose Coq paths coincide overwrite each other's output and the command exits 0",
@@ -322,6 +342,20 @@ def check(ctx):
                 build.broken.append({"kind": "correspondence", "name": "cli: Lean Cmd.run vs cmd/goose (colliding output paths)",
                                      "detail": "model `%s` vs exit %d files %s" % (" ".join(mo), rc, sorted(t))})
         shutil.rmtree(root, ignore_errors=True)
+        # … and exactly two colliding packages that are NOT neighbours in the sorted order (a sub-package of the first lies between)
+        col2 = {"x/a-b": {"f.go": "package ab\n\n" + fn2 % "Dash"}, "x/a-b/sub": {"f.go": "package sub\n\n" + fn2 % "Sub"}, "x/a_b": {"f.go": "package a_b\n\n" + fn2 % "Under"}}
+        for pats in (["./..."], ["./x/a-b", "./x/a-b/sub", "./x/a_b"]):
+            root = os.path.join(scratch, "col2")
+            gomod.write_module(root, col2)
+            rc, out, err = gomod.run_goose(root, [], pats, out=os.path.join(root, "Goose"))
+            t = gomod.tree(os.path.join(root, "Goose"))
+            stats["colliding_path_scenarios"] += 1
+            if rc == 0 and len(t) < len(col2) and not found:
+                found = True
+                ctx.violation("counterexample", "goose command: packages whose Coq paths coincide overwrite each other's output and the command exits 0",
+                              {"proto": "cli-cmd", "packages": col2, "patterns": pats}, expected="one file per translated package, or a non-zero exit status that reports the collision",
+                              observed={"exit": rc, "files": sorted(t), "definitions": sorted(re.findall(r"^Definition (\w+):", "".join(v[0].decode() for v in t.values()), re.M))})
+            shutil.rmtree(root, ignore_errors=True)
         # ---- a module whose path has a single element, and files selected by other build constraints than `goose`
         fn = "func %s() uint64 {\n\treturn 1\n}\n"
         one = {"": {"r.go": "package m\n\n" + fn % "Root"},
